@@ -285,6 +285,7 @@ type cbpMore struct {
 	processFn     *ssa.Function // invokes batch.add
 	enqueueFn     *ssa.Function // select-sends on the item channel
 	enqueueSelect *ssa.Select
+	enqueueSend   *ssa.Send // a bare send on the item channel (no select): the enqueue is not cancellable
 	waitFn        *ssa.Function // receives the counted errors
 	waitSelect    *ssa.Select
 	countedErr    *types.Named
@@ -333,13 +334,17 @@ func (a *cbpAnchors) more() *cbpMore {
 	for _, fn := range fns {
 		core.EachInstr(fn, func(i ssa.Instruction) {
 			switch x := i.(type) {
+			case *ssa.Send:
+				if isItemChan(x.Chan) && m.enqueueFn == nil {
+					m.enqueueFn, m.enqueueSend = fn, x
+				}
 			case *ssa.Select:
 				for _, s := range x.States {
 					switch {
 					case s.Dir == types.RecvOnly && isItemChan(s.Chan) && x.Blocking:
 						m.loopFn, m.mainSelect = fn, x
 					case s.Dir == types.SendOnly && isItemChan(s.Chan):
-						m.enqueueFn, m.enqueueSelect = fn, x
+						m.enqueueFn, m.enqueueSelect, m.enqueueSend = fn, x, nil
 					case s.Dir == types.RecvOnly && chanElem(s.Chan.Type()) != nil:
 						if n := core.NamedOf(chanElem(s.Chan.Type())); n != nil && n.Obj().Pkg() != nil && n.Obj().Pkg().Path() == core.CBPPath {
 							if es, ok := n.Underlying().(*types.Struct); ok && es.NumFields() == 2 {
